@@ -305,6 +305,8 @@ def long_inputs(full):
         out.append('9' * n + '.' + '7' * n)
         out.append('١' * n)            # arabic-indic digits
         out.append('-' + '9' * n)
+        out.append('$' + '9' * n)
+        out.append('$0' + '9' * n + ' + $' + '1' * n)
         out.append('[' + '9' * n + ']')
         out.append('f(' + '9' * n + ')')
         # the long numeral as the token the grammar rejects (error messages
@@ -364,6 +366,16 @@ def operand_grid(full):
     marks += ['\ufe20', '\U0001d165', '\u20e3', '\u200d', '\ufeff']
     for m in (marks if full else marks[::3] + marks[:48]):
         out += [m, m + 'abc', m + ' + 1', 'a' + m, '$.' + m, m + m]
+    # every character that some notion of "digit" or "number" covers
+    # (decimal digits of all scripts, superscripts, circled digits,
+    # fractions, ideographic numerals): str.isdigit() / isnumeric() /
+    # int() / float() / the regex classes disagree about them
+    import sys
+    nums = [chr(c) for c in range(0x80, sys.maxunicode + 1)
+            if chr(c).isnumeric() or chr(c).isdigit()]
+    for ch in (nums if full else nums[::3] + nums[:40]):
+        out += ['$' + ch, '$1' + ch, ch, '1' + ch, ch + '.5', '1.' + ch,
+                'f' + ch + '(1)', '$.a' + ch, '[' + ch + ch + ']']
     return out
 
 
